@@ -148,6 +148,8 @@ class Canon:
                 if c and self.inlinable(c) is not None:
                     self.run_fn(self.fns[c], stack + (p,))
             self.drop_debug_asserts(body)
+            self.split_last_match(body)
+            self.let_else(body)
             self.flatten_blocks(body)
             self.option_searches(body, f)
             self.flatten_blocks(body)
@@ -171,7 +173,9 @@ class Canon:
             self.match_ints(body)
             self.if_assign(body)
             self.mem_replace(body)
+            self.loop_to_while(body)
             self.while_loops(body)
+            self.for_each_loops(body)
             self.fold_tuple_loops(body)
             self.fold_loops(body)
             self.collect_loops(body)
@@ -1122,6 +1126,147 @@ class Canon:
                 blk["stmts"] = [s_ for s_ in st if not s_.get("canon_dead")]
 
     # ------------------------------------------------------------------ P7
+    def split_last_match(self, body):
+        """`match X.split_last() { None => A, Some((&last, rest)) => B }`  ->  `if X.is_empty() { A } else { B[last := X[len-1], rest := &X[0..len-1]] }`
+        (X a Vec / slice place that B does not write)."""
+        for m in [y for y in _walk(body) if y.get("k") == "Match" and len(y.get("arms", [])) == 2]:
+            sc = _strip(m["scrut"])
+            if sc.get("k") != "MethodCall" or sc.get("name") != "split_last" or sc.get("args") or "[T]::" not in str(sc.get("fn") or ""):
+                continue
+            X = sc["recv"]
+            if not self._pure(X):
+                continue
+            none_arm = some_arm = None
+            for a in m["arms"]:
+                pa = a["pat"]
+                if str(pa.get("path", "")).endswith("::None") and pa.get("k") in ("PatExpr", "Path", "Struct", "TupleStruct") and not pa.get("ps"):
+                    none_arm = a
+                elif pa.get("k") == "TupleStruct" and str(pa.get("path", "")).endswith("::Some") and len(pa.get("ps", [])) == 1 and pa["ps"][0].get("k") == "Tuple" and len(pa["ps"][0].get("ps", [])) == 2:
+                    some_arm = a
+            if none_arm is None or some_arm is None or none_arm.get("guard") or some_arm.get("guard"):
+                continue
+            p_last, p_rest = some_arm["pat"]["ps"][0]["ps"]
+            b_last = p_last["p"] if p_last.get("k") == "Ref" else p_last
+            if b_last.get("k") not in ("Bind", "Wild") or p_rest.get("k") not in ("Bind", "Wild") or b_last.get("mut") or p_rest.get("mut"):
+                continue
+            sp = m.get("sp") or [0, 0, 0, 0]
+            ety = str(b_last.get("ty", "")).lstrip("&") if p_last.get("k") != "Ref" else b_last.get("ty")
+
+            def usz(node):
+                node.setdefault("ty", "usize")
+                node.setdefault("id", self._id())
+                node.setdefault("sp", list(sp))
+                return node
+
+            def base():
+                r = copy.deepcopy(X)
+                r.pop("adj", None)
+                return r
+
+            def length():
+                return usz({"k": "MethodCall", "name": "len", "fn": "std::vec::Vec<T, A>::len", "impl": "std::vec::Vec<T, A>::len", "fn_local": False, "recv": base(), "args": []})
+
+            def lastidx():
+                return usz({"k": "Binary", "op": "-", "l": length(), "r": usz({"k": "Lit", "v": "1"})})
+            bodyB = some_arm["body"]
+            if b_last.get("k") == "Bind":
+                elem = {"k": "Index", "base": base(), "idx": lastidx(), "id": self._id(), "ty": ety, "sp": list(sp)}
+                repl = elem if p_last.get("k") == "Ref" else {"k": "AddrOf", "mut": False, "e": elem, "id": self._id(), "ty": b_last.get("ty"), "sp": list(sp)}
+                for u in [y for y in _walk(bodyB) if y.get("k") == "Local" and y.get("v") == b_last["v"]]:
+                    keep = {kk: u.get(kk) for kk in ("sp", "adj")}
+                    u.clear()
+                    u.update(copy.deepcopy(repl))
+                    for kk, vv in keep.items():
+                        if vv is not None:
+                            u[kk] = vv
+            if p_rest.get("k") == "Bind":
+                rng = {"k": "Range", "lo": usz({"k": "Lit", "v": "0"}), "hi": lastidx(), "incl": False, "id": self._id(), "ty": "std::ops::Range<usize>", "sp": list(sp)}
+                sl = {"k": "AddrOf", "mut": False, "e": {"k": "Index", "base": base(), "idx": rng, "id": self._id(), "ty": "[%s]" % ety, "sp": list(sp)},
+                      "id": self._id(), "ty": p_rest.get("ty"), "sp": list(sp)}
+                for u in [y for y in _walk(bodyB) if y.get("k") == "Local" and y.get("v") == p_rest["v"]]:
+                    keep = {kk: u.get(kk) for kk in ("sp", "adj")}
+                    u.clear()
+                    u.update(copy.deepcopy(sl))
+                    for kk, vv in keep.items():
+                        if vv is not None:
+                            u[kk] = vv
+            cond = {"k": "MethodCall", "name": "is_empty", "fn": "std::vec::Vec<T, A>::is_empty", "impl": "std::vec::Vec<T, A>::is_empty", "fn_local": False,
+                    "recv": base(), "args": [], "id": self._id(), "ty": "bool", "sp": list(sp)}
+
+            def blk(e):
+                if e.get("k") == "Block":
+                    return e
+                return {"k": "Block", "stmts": [], "expr": e, "id": self._id(), "ty": e.get("ty"), "sp": list(e.get("sp") or sp)}
+            keepm = {kk: m.get(kk) for kk in ("ty", "sp", "adj")}
+            m.clear()
+            m.update({"k": "If", "cond": cond, "then": blk(none_arm["body"]), "else": blk(bodyB), "id": self._id()})
+            for kk, vv in keepm.items():
+                if vv is not None:
+                    m[kk] = vv
+            self.stats["split_last"] = self.stats.get("split_last", 0) + 1
+
+    def loop_to_while(self, body):
+        """`loop { if c1 { break; } if c2 { break; } BODY }`  ->  `while !c1 && !c2 { BODY }` (the leading exits of a `loop` are its condition)."""
+        for n in [y for y in _walk(body) if y.get("k") == "Loop" and y.get("src") == "Loop" and isinstance(y.get("body"), dict)]:
+            stmts = list(n["body"].get("stmts", []))
+            conds = []
+            while stmts:
+                e = _strip(stmts[0].get("e") or {}) if stmts[0].get("k") in ("Semi", "Expr") else {}
+                if e.get("k") != "If" or e.get("else") is not None:
+                    break
+                th = e["then"]
+                ts = th.get("stmts", []) if th.get("k") == "Block" else None
+                only_break = False
+                if ts is not None:
+                    items = [_strip(x.get("e") or {}) for x in ts] + ([_strip(th["expr"])] if th.get("expr") is not None else [])
+                    only_break = len(items) == 1 and items[0].get("k") == "Break" and items[0].get("e") is None and not items[0].get("label")
+                if not only_break:
+                    break
+                conds.append(e["cond"])
+                stmts.pop(0)
+            if not conds:
+                continue
+            sp = n.get("sp") or [0, 0, 0, 0]
+
+            def neg(c):
+                return {"k": "Unary", "op": "!", "e": c, "id": self._id(), "ty": "bool", "sp": list(c.get("sp") or sp)}
+            cond = neg(conds[0])
+            for c in conds[1:]:
+                cond = {"k": "Binary", "op": "&&", "l": cond, "r": neg(c), "id": self._id(), "ty": "bool", "sp": list(sp)}
+            n["body"]["stmts"] = stmts
+            n["k"] = "While"
+            n["cond"] = cond
+            n.pop("src", None)
+            self.stats["loop_to_while"] = self.stats.get("loop_to_while", 0) + 1
+
+    def let_else(self, body):
+        """`let Ok(x) = E else { <diverges> };`  ->  `let x = match E { Ok(x') => x', Err(_) => <diverges> };` (likewise `Some(x)` / `None`)."""
+        for n in [y for y in _walk(body) if y.get("k") == "Let" and isinstance(y.get("els"), dict) and y.get("init") is not None]:
+            pat = n["pat"]
+            inner = None
+            if pat.get("k") == "TupleStruct" and len(pat.get("ps", [])) == 1:
+                inner = pat["ps"][0]
+            elif pat.get("k") == "Struct" and len(pat.get("fields", [])) == 1:
+                inner = pat["fields"][0].get("pat")
+            ctor = str(pat.get("path", "")).split("::")[-1]
+            if inner is None or inner.get("k") != "Bind" or inner.get("byref") or ctor not in ("Ok", "Some"):
+                continue
+            self.fresh += 1
+            v2 = self.fresh
+            sp = n.get("sp") or [0, 0, 0, 0]
+            ity = inner.get("ty")
+            ok_pat = {"k": "TupleStruct", "path": pat.get("path"), "ps": [{"k": "Bind", "v": v2, "name": "__ok", "mut": False, "byref": False, "ty": ity}], "ty": pat.get("ty")}
+            other = {"k": "TupleStruct", "path": str(pat.get("path", "")).rsplit("::", 1)[0] + "::Err", "ps": [{"k": "Wild", "ty": "_"}], "ty": pat.get("ty")} if ctor == "Ok" else \
+                {"k": "Path", "path": str(pat.get("path", "")).rsplit("::", 1)[0] + "::None", "ty": pat.get("ty")}
+            m = {"k": "Match", "scrut": n["init"],
+                 "arms": [{"pat": ok_pat, "body": {"k": "Local", "v": v2, "name": "__ok", "id": self._id(), "ty": ity, "sp": list(sp)}, "sp": list(sp)},
+                          {"pat": other, "body": n["els"], "sp": list(n["els"].get("sp") or sp)}],
+                 "id": self._id(), "ty": ity, "sp": list(sp)}
+            n["pat"] = inner
+            n["init"] = m
+            del n["els"]
+            self.stats["let_else"] = self.stats.get("let_else", 0) + 1
+
     def split_tuple_lets(self, body):
         """`let (a, b, c) = (x, y, z);` (typically what is left of a tuple-returning helper after inlining)  ->  `let a = x; let b = y; let c = z;`
         (bindings are identified by id in this representation, so the new names cannot capture anything on the right)."""
@@ -1162,6 +1307,40 @@ class Canon:
                 blk["stmts"] = keep
             t = blk.get("expr")
             if isinstance(t, dict) and str(t.get("m") or "").split("::")[-1].startswith("debug_assert"):
+                blk["expr"] = None
+
+    def for_each_loops(self, body):
+        """`SRC.for_each(|p| { .. });` as a statement  ->  `for p in SRC { .. }` (the closure has no `return`, which would mean `continue`)."""
+        for blk in [n for n in _walk(body) if n.get("k") == "Block"]:
+            items = list(blk.get("stmts", []))
+            tail_is = False
+            t = blk.get("expr")
+            if isinstance(t, dict) and _strip(t).get("k") == "MethodCall" and _strip(t).get("name") == "for_each" and str(t.get("ty")) == "()":
+                items.append({"k": "Semi", "e": t, "sp": t.get("sp")})
+                tail_is = True
+            changed = False
+            for st in items:
+                e = _strip(st.get("e")) if st.get("k") in ("Semi", "Expr") and isinstance(st.get("e"), dict) else None
+                if e is None or e.get("k") != "MethodCall" or e.get("name") != "for_each" or e.get("fn") != "std::iter::Iterator::for_each" or len(e.get("args", [])) != 1:
+                    continue
+                cl = _strip(e["args"][0])
+                if cl.get("k") != "Closure" or len(cl.get("params", [])) != 1 or any(y.get("k") in ("Ret", "Try") for y in _walk(cl["body"])):
+                    continue
+                cb = cl["body"]
+                if cb.get("k") != "Block":
+                    cb = {"k": "Block", "stmts": [{"k": "Semi", "e": cb, "sp": cb.get("sp")}], "id": self._id(), "ty": "()", "sp": list(cb.get("sp") or [0, 0, 0, 0])}
+                elif cb.get("expr") is not None:
+                    cb = dict(cb)
+                    cb["stmts"] = list(cb.get("stmts", [])) + [{"k": "Semi", "e": cb["expr"], "sp": cb["expr"].get("sp")}]
+                    cb["expr"] = None
+                sp = st.get("sp") or e.get("sp") or [0, 0, 0, 0]
+                loop = {"k": "For", "pat": cl["params"][0], "iter": e["recv"], "body": cb, "id": self._id(), "ty": "()", "sp": list(sp), "canon": "for-each"}
+                st["k"] = "Expr"
+                st["e"] = loop
+                changed = True
+                self.stats["for_each_loops"] = self.stats.get("for_each_loops", 0) + 1
+            if changed and tail_is:
+                blk["stmts"] = items
                 blk["expr"] = None
 
     def fold_tuple_loops(self, body):
